@@ -497,16 +497,147 @@ class _Subst(ast.NodeTransformer):
         return node
 
 
-def normalise_fn(fn: ast.FunctionDef) -> ast.FunctionDef:
+def _simple_helper(fd: ast.AST) -> Optional[tuple[list[str], ast.expr]]:
+    """A function / method whose body is (docstring, asserts,) one `return <expr>`, with plain positional parameters
+    and no decorator other than `staticmethod`: (parameter names, returned expression).  Calling it IS evaluating that
+    expression with the arguments substituted."""
+    if not isinstance(fd, ast.FunctionDef):
+        return None
+    if any(ast.unparse(d) != 'staticmethod' for d in fd.decorator_list):
+        return None
+    a = fd.args
+    if a.vararg or a.kwarg or a.posonlyargs or a.kwonlyargs or a.defaults:
+        return None
+    body = [st for st in fd.body if not (isinstance(st, ast.Expr) and isinstance(st.value, ast.Constant))
+            and not isinstance(st, ast.Assert)]
+    if len(body) != 1 or not isinstance(body[0], ast.Return) or body[0].value is None:
+        return None
+    if any(isinstance(n, (ast.Yield, ast.YieldFrom, ast.Await, ast.NamedExpr, ast.Lambda)) for n in ast.walk(body[0].value)):
+        return None
+    return [x.arg for x in a.args], body[0].value
+
+
+def _pure_chain(e: ast.expr) -> bool:
+    """A name, constant or attribute chain on a name: may be evaluated any number of times."""
+    while isinstance(e, ast.Attribute):
+        e = e.value
+    return isinstance(e, (ast.Name, ast.Constant))
+
+
+def _bound_in_expr(e: ast.AST) -> set[str]:
+    return {n.id for g in ast.walk(e) if isinstance(g, ast.comprehension) for n in ast.walk(g.target) if isinstance(n, ast.Name)}
+
+
+def inline_call(call: ast.Call, params: list[str], body: ast.expr, recv: Optional[ast.expr] = None) -> Optional[ast.expr]:
+    """`helper(args)` -> the helper's returned expression with the arguments substituted (None when the substitution
+    would not be exact: missing / extra arguments, an argument with possible effects used more than once, a
+    comprehension variable of the helper captured by an argument).  `recv` = the receiver for a method (`self`)."""
+    import copy as _c
+    if any(isinstance(a, ast.Starred) for a in call.args) or any(k.arg is None for k in call.keywords):
+        return None
+    names = list(params)
+    bound: dict[str, ast.expr] = {}
+    if recv is not None:
+        if not names:
+            return None
+        bound[names.pop(0)] = recv
+    if len(call.args) > len(names):
+        return None
+    for p, a in zip(names, call.args):
+        bound[p] = a
+    for k in call.keywords:
+        if k.arg not in names or k.arg in bound:
+            return None
+        bound[k.arg] = k.value  # type: ignore[index]
+    if set(bound) != set(params):
+        return None
+    uses = {p: sum(1 for n in ast.walk(body) if isinstance(n, ast.Name) and n.id == p) for p in params}
+    captured = _bound_in_expr(body)
+    for p, a in bound.items():
+        if uses[p] > 1 and not _pure_chain(a):
+            return None
+        if captured & {n.id for n in ast.walk(a) if isinstance(n, ast.Name)}:
+            return None
+    if captured & set(params):
+        return None
+    return _Subst(bound).visit(_c.deepcopy(body))
+
+
+class _InlineHelpers(ast.NodeTransformer):
+    """(d) `helper(args)` for a module-level single-return helper and (e) `self.helper(args)` for a single-return
+    method of the same class are replaced by the returned expression (exact: see `inline_call`)."""
+
+    def __init__(self, module: Optional[ast.Module], cls: Optional[ast.ClassDef], fn: ast.FunctionDef) -> None:
+        self.funcs: dict[str, tuple[list[str], ast.expr]] = {}
+        self.meths: dict[str, tuple[list[str], ast.expr, bool]] = {}
+        shadow = set(_assigned_names(fn)) | {a.arg for a in fn.args.args + fn.args.kwonlyargs}
+        for n in (module.body if module is not None else []):
+            h = _simple_helper(n)
+            if h is not None and n.name not in shadow:  # type: ignore[attr-defined]
+                self.funcs[n.name] = h  # type: ignore[attr-defined]
+        for n in (cls.body if cls is not None else []):
+            h = _simple_helper(n)
+            if h is not None and n.name != fn.name and sum(1 for m in cls.body  # type: ignore[union-attr]
+                                                           if isinstance(m, ast.FunctionDef) and m.name == n.name) == 1:  # type: ignore[attr-defined]
+                static = any(ast.unparse(d) == 'staticmethod' for d in n.decorator_list)  # type: ignore[attr-defined]
+                self.meths[n.name] = (h[0], h[1], static)  # type: ignore[attr-defined]
+        self.changed = False
+
+    def visit_Call(self, node: ast.Call) -> ast.AST:
+        self.generic_visit(node)
+        new: Optional[ast.expr] = None
+        if isinstance(node.func, ast.Name) and node.func.id in self.funcs:
+            ps, body = self.funcs[node.func.id]
+            new = inline_call(node, ps, body)
+        elif isinstance(node.func, ast.Attribute) and isinstance(node.func.value, ast.Name) and node.func.value.id == 'self' \
+                and node.func.attr in self.meths:
+            ps, body, static = self.meths[node.func.attr]
+            new = inline_call(node, ps, body, None if static else node.func.value)
+        if new is None:
+            return node
+        self.changed = True
+        return ast.copy_location(new, node)
+
+
+def _pure_test(t: ast.expr) -> bool:
+    """A test that may be evaluated more than once: names, attributes, constants, comparisons, not/and/or, isinstance."""
+    for n in ast.walk(t):
+        if isinstance(n, ast.Call):
+            if not (isinstance(n.func, ast.Name) and n.func.id == 'isinstance'):
+                return False
+        elif not isinstance(n, (ast.Name, ast.Attribute, ast.Constant, ast.Compare, ast.BoolOp, ast.UnaryOp, ast.Load,
+                                ast.cmpop, ast.boolop, ast.unaryop, ast.Tuple)):
+            return False
+    return True
+
+
+def _ends_flow(body: list[ast.stmt]) -> bool:
+    return bool(body) and isinstance(body[-1], (ast.Return, ast.Raise))
+
+
+def normalise_fn(fn: ast.FunctionDef, module: Optional[ast.Module] = None, cls: Optional[ast.ClassDef] = None) -> ast.FunctionDef:
     """Behaviour-preserving rewrites applied BEFORE a method is classified, so that equivalent spellings give the same
     census (nothing here depends on the names or the text of the method):
       (a) a local bound exactly once, at the top level of the body, to a pure read `self.a[.b]` in a method that never
           stores into an attribute of `self`, is an ALIAS: its uses are replaced by the read;
       (b) `x = []` followed by `for t in it: x.append(e)` (optionally under one `if c:`) is the comprehension
           `x = [e for t in it if c]`;
-      (c) `obj.f = A if c else B` is `if c: obj.f = A` / `else: obj.f = B`."""
+      (c) `obj.f = A if c else B` is `if c: obj.f = A` / `else: obj.f = B`;
+      (d) a call of a module-level helper whose body is one `return <expr>` is that expression (arguments substituted);
+      (e) likewise `self.helper(...)` for a single-return method of the same class (`return self.__copy__()` ...);
+      (g) `if c: n1 = A1; n2 = A2 else: n1 = B1; n2 = B2` (plain local names only, c pure and independent of them) is
+          `n1 = A1 if c else B1; n2 = A2 if c else B2`;
+      (h) a guard clause `if c: ...; return/raise` followed by more statements is `if c: ... else: <the rest>`;
+          `if not c: A else: B` is `if c: B else: A`."""
     import copy as _c
     fn = _c.deepcopy(fn)
+    if module is not None or cls is not None:
+        for _ in range(3):
+            inl = _InlineHelpers(module, cls, fn)
+            fn.body = [inl.visit(st) for st in fn.body]
+            if not inl.changed:
+                break
+        ast.fix_missing_locations(fn)
     params = {a.arg for a in fn.args.args + fn.args.kwonlyargs}
     stores_self = any(isinstance(n, (ast.Assign, ast.AugAssign, ast.AnnAssign)) and any(
         isinstance(t, ast.Attribute) and _pure_self_chain(t) for t in (n.targets if isinstance(n, ast.Assign) else [n.target]))
@@ -540,13 +671,40 @@ def normalise_fn(fn: ast.FunctionDef) -> ast.FunctionDef:
             return body
         fn.body = inline(fn.body, {})
 
-    # (b) and (c), recursively through blocks
+    # (b), (c), (g), (h), recursively through blocks
+    def simple_assigns(body: list[ast.stmt]) -> Optional[dict[str, ast.expr]]:
+        res: dict[str, ast.expr] = {}
+        for x in body:
+            if not (isinstance(x, ast.Assign) and len(x.targets) == 1 and isinstance(x.targets[0], ast.Name)) \
+                    or x.targets[0].id in res:  # type: ignore[union-attr]
+                return None
+            res[x.targets[0].id] = x.value  # type: ignore[union-attr]
+        return res or None
+
     def block(stmts: list[ast.stmt]) -> list[ast.stmt]:
         out: list[ast.stmt] = []
         i = 0
+        stmts = list(stmts)
         while i < len(stmts):
             st = stmts[i]
             nxt = stmts[i + 1] if i + 1 < len(stmts) else None
+            # (h) guard clause -> if/else; `if not c` -> flipped
+            if isinstance(st, ast.If) and not st.orelse and _ends_flow(st.body) and i + 1 < len(stmts):
+                st.orelse = stmts[i + 1:]
+                stmts = stmts[:i + 1]
+            if isinstance(st, ast.If) and st.orelse and isinstance(st.test, ast.UnaryOp) and isinstance(st.test.op, ast.Not):
+                st.test, st.body, st.orelse = st.test.operand, st.orelse, st.body
+            # (g) if/else binding the same plain locals -> conditional expressions
+            if isinstance(st, ast.If) and st.orelse and _pure_test(st.test):
+                ba, bb = simple_assigns(st.body), simple_assigns(st.orelse)
+                tn = {n.id for n in ast.walk(st.test) if isinstance(n, ast.Name)}
+                if ba is not None and bb is not None and set(ba) == set(bb) and not (tn & set(ba)) and not (set(ba) & params):
+                    for nm in ba:
+                        val = ast.IfExp(test=_c.deepcopy(st.test), body=ba[nm], orelse=bb[nm])
+                        out.append(ast.fix_missing_locations(ast.copy_location(
+                            ast.Assign(targets=[ast.Name(id=nm, ctx=ast.Store())], value=val), st)))
+                    i += 1
+                    continue
             if isinstance(st, ast.Assign) and len(st.targets) == 1 and isinstance(st.targets[0], ast.Name) \
                     and isinstance(st.value, ast.List) and not st.value.elts and isinstance(nxt, ast.For) and not nxt.orelse \
                     and len(nxt.body) == 1:
@@ -977,8 +1135,23 @@ class CopyAnalysis:
     # ---- a copy() method that builds with a constructor call, optionally followed by `new.X = ...`
     def method_census(self, cname: str, mname: str = 'copy', label: Optional[str] = None) -> Census:
         cls = self.classes[cname].node
-        fn = normalise_fn(_method(cls, mname))
+        fn = normalise_fn(_method(cls, mname), self.tree, cls)
         label = label or cname
+        # `return self.other()` (no arguments, `other` a parameterless method of the class): the method IS the other one
+        for _hop in range(3):
+            body0 = [st for st in fn.body if not (isinstance(st, ast.Expr) and isinstance(st.value, ast.Constant))
+                     and not isinstance(st, ast.Assert)]
+            if len(body0) == 1 and isinstance(body0[0], ast.Return) and isinstance(body0[0].value, ast.Call) \
+                    and not body0[0].value.args and not body0[0].value.keywords \
+                    and _self_attr(body0[0].value.func) is not None \
+                    and any(isinstance(n, ast.FunctionDef) and n.name == _self_attr(body0[0].value.func) for n in cls.body):
+                target = _method(cls, _self_attr(body0[0].value.func))  # type: ignore[arg-type]
+                if len(target.args.args) != 1 or target.args.kwonlyargs or target.args.vararg or target.args.kwarg \
+                        or target.decorator_list or target.name == fn.name:
+                    break
+                fn = normalise_fn(target, self.tree, cls)
+            else:
+                break
         params = {a.arg for a in fn.args.args[1:] + fn.args.kwonlyargs}
         env: dict[str, ast.expr] = {}
         call: Optional[ast.Call] = None
@@ -1052,6 +1225,8 @@ class CopyAnalysis:
                             raise TranslateError(f'{label}: unrecognised if/else `{test}`')
                         scan(st.body, True)
                         for s2 in st.orelse:
+                            if isinstance(s2, ast.Return) and isinstance(s2.value, ast.Name) and s2.value.id == newvar:
+                                continue      # both branches end in `return <the copy>` (guard-clause form)
                             if not (isinstance(s2, ast.Assign) and newvar and _self_attr(s2.targets[0], newvar)
                                     and _self_attr(s2.value, 'self') == _self_attr(s2.targets[0], newvar)):
                                 raise TranslateError(f'{label}: unrecognised else-branch `{ast.unparse(s2)}`')
@@ -1080,7 +1255,7 @@ class CopyAnalysis:
         return cen
 
     def analyse_copy_values(self) -> None:
-        fn = normalise_fn(_method(self.classes['EntityFixup'].node, 'copy_values'))
+        fn = normalise_fn(_method(self.classes['EntityFixup'].node, 'copy_values'), self.tree, self.classes['EntityFixup'].node)
         stmts = [s for s in fn.body if not (isinstance(s, ast.Expr) and isinstance(s.value, ast.Constant))]
         rets = [s for s in stmts if isinstance(s, ast.Return)]
         if len(rets) != 1 or rets[0].value is None or stmts[-1] is not rets[0]:
@@ -1181,11 +1356,11 @@ def kv_receivers(tree: ast.Module) -> dict:
     # what the public append()/extend() do with their argument (used when +/+= delegate to them)
     via: dict[str, bool] = {}
     for name in ('append', 'extend'):
-        sites = appends(normalise_fn(_method(cls, name)), {})
+        sites = appends(normalise_fn(_method(cls, name), tree, cls), {})
         via[name] = bool(sites) and all(s[2] for s in sites)
     out['public_method_copies'] = via
     for name in ('__add__', '__iadd__', 'extend'):
-        fn = normalise_fn(_method(cls, name))
+        fn = normalise_fn(_method(cls, name), tree, cls)
         sites = appends(fn, via)
         if name == 'extend':
             if len(sites) != 1:
